@@ -4,7 +4,7 @@ import stat
 import time
 import typing
 
-from pygopherd import gopherentry, handlers
+from pygopherd import GopherExceptions, gopherentry, handlers
 from pygopherd.handlers.base import BaseHandler
 
 
@@ -33,10 +33,14 @@ class DirHandler(BaseHandler):
         dirfiles = self.vfs.listdir(self.getselector())
         ignorepatt = self.config.get("handlers.dir.DirHandler", "ignorepatt")
         for file in dirfiles:
-            if self.prep_initfiles_canaddfile(
-                ignorepatt, self.selectorbase + "/" + file, file
-            ):
-                self.files.append(file)
+            try:
+                if self.prep_initfiles_canaddfile(
+                    ignorepatt, self.selectorbase + "/" + file, file
+                ):
+                    self.files.append(file)
+            except OSError:
+                # An unreadable entry must not take down the whole listing.
+                continue
 
     def prep_initfiles_canaddfile(
         self, ignorepatt: str, pattern: str, file: str
@@ -49,15 +53,19 @@ class DirHandler(BaseHandler):
         for file in self.files:
             # We look up the appropriate handler for this object, and ask
             # it to give us an entry object.
-            handler = handlers.HandlerMultiplexer.getHandler(
-                self.selectorbase + "/" + file,
-                self.searchrequest,
-                self.protocol,
-                self.config,
-                vfs=self.vfs,
-            )
-            fileentry = handler.getentry()
-            self.prep_entriesappend(file, handler, fileentry)
+            try:
+                handler = handlers.HandlerMultiplexer.getHandler(
+                    self.selectorbase + "/" + file,
+                    self.searchrequest,
+                    self.protocol,
+                    self.config,
+                    vfs=self.vfs,
+                )
+                fileentry = handler.getentry()
+                self.prep_entriesappend(file, handler, fileentry)
+            except (GopherExceptions.FileNotFound, OSError):
+                # An unservable entry must not take down the whole listing.
+                continue
 
     def prep_entriesappend(
         self, file: str, handler: BaseHandler, fileentry: gopherentry.GopherEntry
